@@ -44,6 +44,21 @@ Definition args_methods : list bytes :=
 
 Definition unknown_method (m : msg) : Prop := ~ In (m_q m) known_methods.
 
+(* effects that are upcalls into the application, not datagrams or drops *)
+Definition is_callback (x : effect) : bool :=
+  match x with EAnnounceCb _ _ _ _ | EPeerAdd _ _ _ => true | _ => false end.
+
+Lemma callbacks_no_sends pre : forallb is_callback pre = true -> sends pre = [].
+Proof.
+  unfold sends. induction pre as [|x pre IH]; [reflexivity|]. cbn [forallb filter]. intros H.
+  apply andb_true_iff in H. destruct H as [Hx Hr]. destruct x; try discriminate; cbn; auto.
+Qed.
+
+Lemma callbacks_no_drop pre n : forallb is_callback pre = true -> ~ In (EDropped n) pre.
+Proof.
+  intros H Hin. rewrite forallb_forall in H. specialize (H _ Hin). discriminate.
+Qed.
+
 Lemma sends_app a b : sends (a ++ b) = sends a ++ sends b.
 Proof. apply filter_app. Qed.
 
@@ -206,21 +221,21 @@ Section C08.
 
   (* dispatch either stays silent — only for announce_peer / put with arguments and a token that is
      not valid — or makes exactly one call of the write routine, towards the source, with t echoed;
-     whatever precedes it in the output is no datagram *)
+     whatever precedes it in the output are application callbacks *)
   Inductive answer_shape (s : sstate) (src : addr) (m : msg) : sstate -> list effect -> Prop :=
   | AS_silent a :
       m_q m = s_announce_peer \/ m_q m = s_put -> m_a m = Some a ->
       valid_token (a_token a) src (s_now s) = Some false ->
       answer_shape s src m s []
   | AS_write pre s0 rm kind s' w :
-      same_gate s0 s -> sends pre = [] -> answer_form src (m_t m) rm kind ->
+      same_gate s0 s -> forallb is_callback pre = true -> answer_form src (m_t m) rm kind ->
       wr_spec s0 src rm kind s' w -> answer_shape s src m s' (pre ++ w).
 
   Lemma gate_refl s : same_gate s s.
   Proof. repeat split. Qed.
 
   Lemma shape_reply_pre s s0 src m r s2 out0 pre :
-    same_gate s0 s -> sends pre = [] -> reply s0 src (m_t m) r = (s2, out0) ->
+    same_gate s0 s -> forallb is_callback pre = true -> reply s0 src (m_t m) r = (s2, out0) ->
     answer_shape s src m s2 (pre ++ out0).
   Proof.
     intros Hg Hp H. unfold Server.reply in H. apply write_rated_spec in H.
@@ -292,3 +307,803 @@ Section C08.
       split_matches H; finish_shape H. }
     finish_shape H.
   Qed.
+
+  (* consequences of the shape: the datagrams, and the budget *)
+  Lemma wr_sends s0 dst rm kind s' w :
+    wr_spec s0 dst rm kind s' w ->
+    (sends w = [] /\ s' = s0 /\
+     (s_closed s0 = true \/ blocked (s_blocklist s0) (ip dst) = true \/ s_budget s0 = Some 0%N)) \/
+    (sends w = [ESend dst rm kind] /\ s_closed s0 = false /\ blocked (s_blocklist s0) (ip dst) = false /\
+     s_budget s0 <> Some 0%N).
+  Proof.
+    intros H. destruct H as [Hc|Hc Hb|Hc Hb Hbud|Hc Hb Hbud|b Hc Hb Hbud Hpos].
+    - left. repeat split; auto.
+    - left. repeat split; auto.
+    - left. repeat split; auto.
+    - right. repeat split; auto. congruence.
+    - right. repeat split; auto. rewrite Hbud. intros E. injection E as E. lia.
+  Qed.
+
+  Lemma wr_budget s0 dst rm kind s' w :
+    wr_spec s0 dst rm kind s' w ->
+    match s_budget s0 with
+    | None => s_budget s' = None
+    | Some b => exists b', s_budget s' = Some b' /\ b = (b' + N.of_nat (length (sends w)))%N
+    end.
+  Proof.
+    intros H. destruct H as [Hc|Hc Hb|Hc Hb Hbud|Hc Hb Hbud|b Hc Hb Hbud Hpos].
+    - destruct (s_budget s0); [eexists; split; [reflexivity|cbn; lia] | reflexivity].
+    - destruct (s_budget s0); [eexists; split; [reflexivity|cbn; lia] | reflexivity].
+    - destruct (s_budget s0); [eexists; split; [reflexivity|cbn; lia] | reflexivity].
+    - rewrite Hbud. reflexivity.
+    - rewrite Hbud. exists (N.pred b). split; [reflexivity|]. cbn. lia.
+  Qed.
+
+  Lemma wr_gate s0 dst rm kind s' w :
+    wr_spec s0 dst rm kind s' w ->
+    s_now s' = s_now s0 /\ s_blocklist s' = s_blocklist s0 /\ s_closed s' = s_closed s0.
+  Proof. intros H. destruct H; repeat split. Qed.
+
+  Lemma shape_sends s src m s' out :
+    answer_shape s src m s' out ->
+    sends out = [] \/
+    exists rm k, sends out = [ESend src rm k] /\ answer_form src (m_t m) rm k /\
+                 s_closed s = false /\ blocked (s_blocklist s) (ip src) = false /\ s_budget s <> Some 0%N.
+  Proof.
+    intros H. destruct H as [a Hq Hma Hvt | pre s0 rm kind s' w Hg Hcb Hform Hw];
+      [|pose proof (callbacks_no_sends _ Hcb) as Hpre].
+    - left. reflexivity.
+    - rewrite sends_app, Hpre. cbn [app].
+      destruct Hg as (G1 & G2 & G3 & G4).
+      destruct (wr_sends _ _ _ _ _ _ Hw) as [(Hs & _) | (Hs & Hc & Hb & Hbud)].
+      + left. exact Hs.
+      + right. exists rm, kind. rewrite <- G2, <- G3, <- G4. repeat split; assumption.
+  Qed.
+
+  Lemma shape_budget s src m s' out :
+    answer_shape s src m s' out ->
+    match s_budget s with
+    | None => s_budget s' = None
+    | Some b => exists b', s_budget s' = Some b' /\ b = (b' + N.of_nat (length (sends out)))%N
+    end.
+  Proof.
+    intros H. destruct H as [a Hq Hma Hvt | pre s0 rm kind s' w Hg Hcb Hform Hw];
+      [|pose proof (callbacks_no_sends _ Hcb) as Hpre].
+    - destruct (s_budget s); [eexists; split; [reflexivity|cbn; lia] | reflexivity].
+    - rewrite sends_app, Hpre. cbn [app].
+      destruct Hg as (G1 & G2 & G3 & G4). rewrite <- G4. eapply wr_budget; eassumption.
+  Qed.
+
+  Lemma shape_gate s src m s' out :
+    answer_shape s src m s' out ->
+    s_now s' = s_now s /\ s_blocklist s' = s_blocklist s /\ s_closed s' = s_closed s.
+  Proof.
+    intros H. destruct H as [a Hq Hma Hvt | pre s0 rm kind s' w Hg Hpre Hform Hw].
+    - repeat split.
+    - destruct Hg as (G1 & G2 & G3 & G4). destruct (wr_gate _ _ _ _ _ _ Hw) as (W1 & W2 & W3).
+      repeat split; congruence.
+  Qed.
+
+  (* when the gates are open and a token (if one is needed) is valid, the datagram is written *)
+  Definition tokens_ok (s : sstate) (src : addr) (m : msg) : Prop :=
+    forall a, m_q m = s_announce_peer \/ m_q m = s_put -> m_a m = Some a ->
+              valid_token (a_token a) src (s_now s) = Some true.
+
+  Lemma shape_answered s src m s' out :
+    answer_shape s src m s' out ->
+    s_closed s = false -> blocked (s_blocklist s) (ip src) = false -> s_budget s <> Some 0%N ->
+    tokens_ok s src m ->
+    exists rm k, sends out = [ESend src rm k] /\ answer_form src (m_t m) rm k.
+  Proof.
+    intros H Hc Hb Hbud Htok. destruct H as [a Hq Hma Hvt | pre s0 rm kind s' w Hg Hcb Hform Hw];
+      [|pose proof (callbacks_no_sends _ Hcb) as Hpre].
+    - rewrite (Htok a Hq Hma) in Hvt. discriminate.
+    - rewrite sends_app, Hpre. cbn [app].
+      destruct Hg as (G1 & G2 & G3 & G4).
+      destruct (wr_sends _ _ _ _ _ _ Hw) as [(_ & _ & [Hx|[Hx|Hx]]) | (Hs & _)].
+      + congruence.
+      + rewrite G2 in Hx. congruence.
+      + rewrite G4 in Hx. contradiction.
+      + exists rm, kind. split; assumption.
+  Qed.
+
+  (* ---------------------------------------------------------------- one inbound datagram *)
+  Definition udp_buf_n : N := Z.to_N udp_buf.
+
+  (* the three ways a datagram can be processed *)
+  Inductive packet_case (s : sstate) (src : addr) (size : N) (dec : option msg) (ch : choice)
+            (s' : sstate) (out : list effect) : Prop :=
+  | PC_dropped :                       (* oversize, port 0, closed, blocked source, undecodable *)
+      s' = s -> out = [] ->
+      size = udp_buf_n \/ port src = 0%N \/ s_closed s = true \/
+      blocked (s_blocklist s) (ip src) = true \/ dec = None ->
+      packet_case s src size dec ch s' out
+  | PC_nonquery m :                    (* response, error, unknown message type *)
+      dec = Some m -> m_y m <> s_q -> blocked (s_blocklist s) (ip src) = false ->
+      s_budget s' = s_budget s -> s_closed s' = s_closed s -> s_blocklist s' = s_blocklist s ->
+      (out = [] \/ exists qid, out = [ECompleted qid m]) ->
+      packet_case s src size dec ch s' out
+  | PC_query m s1 r :
+      dec = Some m -> m_y m = s_q ->
+      size <> udp_buf_n -> port src <> 0%N -> s_closed s = false ->
+      blocked (s_blocklist s) (ip src) = false ->
+      update_node s src (option_map id_of (sender_id m)) (negb (m_ro m)) UQuery (ch_victim ch) = Ok _ (s1, r) ->
+      same_but_table s1 s ->
+      ((c_hook cfg m = false \/ c_passive cfg = true) /\ s' = s1 /\ out = []) \/
+      (c_hook cfg m = true /\ c_passive cfg = false /\ dispatch s1 src m ch = HQ s' out) ->
+      packet_case s src size dec ch s' out.
+
+  Lemma packet_cases s src size dec ch s' out :
+    step s (EPacket src size dec) ch = SR s' out -> packet_case s src size dec ch s' out.
+  Proof.
+    cbn [Server.step]. intros H.
+    destruct (N.eqb size (Z.to_N udp_buf)) eqn:Hsz.
+    { apply N.eqb_eq in Hsz. injection H as <- <-. apply PC_dropped; auto. }
+    apply N.eqb_neq in Hsz.
+    destruct (N.eqb (port src) 0) eqn:Hport.
+    { apply N.eqb_eq in Hport. injection H as <- <-. apply PC_dropped; auto. }
+    apply N.eqb_neq in Hport.
+    destruct (s_closed s) eqn:Hc.
+    { injection H as <- <-. apply PC_dropped; auto. }
+    destruct (blocked (s_blocklist s) (ip src)) eqn:Hb.
+    { injection H as <- <-. apply PC_dropped; auto. }
+    destruct dec as [m|]; [|injection H as <- <-; apply PC_dropped; auto 6].
+    destruct (bytes_eqb (m_y m) s_q) eqn:Hy.
+    - apply bytes_eqb_eq in Hy.
+      unfold Server.handle_query in H.
+      destruct (update_node s src (option_map id_of (sender_id m)) (negb (m_ro m)) UQuery (ch_victim ch))
+        as [[s1 r]|] eqn:Hu; [|discriminate].
+      pose proof (update_node_sbt _ _ _ _ _ _ _ _ Hu) as Hsbt.
+      assert (Hrest :
+        match (if negb (c_hook cfg m) then HQ s1 []
+               else if c_passive cfg then HQ s1 [] else dispatch s1 src m ch) with
+        | Server.HQ _ s2 o => SR s2 o | HQPanic _ => SRPanic Store | HQBadChoice _ => SRBadChoice Store
+        end = SR s' out -> packet_case s src size (Some m) ch s' out).
+      { clear H. intros H.
+        eapply (PC_query s src size (Some m) ch s' out m s1 r); try eassumption; try reflexivity.
+        destruct (c_hook cfg m) eqn:Hh; cbn [negb] in H.
+        - destruct (c_passive cfg) eqn:Hp.
+          + injection H as <- <-. left. auto.
+          + right. split; [reflexivity|]. split; [reflexivity|].
+            destruct (dispatch s1 src m ch); try discriminate. injection H as <- <-. reflexivity.
+        - injection H as <- <-. left. auto. }
+      destruct r; try (apply Hrest; exact H). discriminate.
+    - assert (Hny : m_y m <> s_q).
+      { intros E. apply bytes_eqb_eq in E. congruence. }
+      destruct (find (txn_match (addr_key src) (m_t m)) (s_pending s)) as [x|] eqn:Hf.
+      + match type of H with context [Server.update_node _ _ _ ?s1 _ _ _ _ _] =>
+          destruct (update_node s1 src (option_map id_of (sender_id m)) (negb (m_ro m)) UResponse (ch_victim ch))
+            as [[s2 r]|] eqn:Hu; [|discriminate]
+        end.
+        pose proof (update_node_sbt _ _ _ _ _ _ _ _ Hu) as (B1 & B2 & B3 & B4 & B5 & B6 & B7 & B8).
+        cbn in B5, B6, B8.
+        assert (Hfin : SR s2 [ECompleted (tx_qid x) m] = SR s' out -> packet_case s src size (Some m) ch s' out).
+        { intros E. injection E as <- <-.
+          eapply (PC_nonquery s src size (Some m) ch s2 _ m); try reflexivity; try assumption.
+          right. eexists. reflexivity. }
+        destruct r; try (apply Hfin; exact H). discriminate.
+      + injection H as <- <-.
+        eapply (PC_nonquery s src size (Some m) ch s [] m); try reflexivity; try assumption. left. reflexivity.
+  Qed.
+
+  (* everything a query's processing can send: from [packet_cases] and [dispatch_shape] *)
+  Lemma packet_sends s src size dec ch s' out :
+    step s (EPacket src size dec) ch = SR s' out ->
+    sends out = [] \/
+    exists m rm k, dec = Some m /\ m_y m = s_q /\ sends out = [ESend src rm k] /\
+                   answer_form src (m_t m) rm k /\
+                   size <> udp_buf_n /\ port src <> 0%N /\
+                   s_closed s = false /\ blocked (s_blocklist s) (ip src) = false /\
+                   s_budget s <> Some 0%N /\ c_hook cfg m = true /\ c_passive cfg = false.
+  Proof.
+    intros H. destruct (packet_cases _ _ _ _ _ _ _ H)
+      as [_ -> _ | m _ _ _ _ _ _ [-> | [qid ->]] | m s1 r Hdec Hy Hsz Hport Hc Hb Hu Hsbt Hd].
+    - left; reflexivity.
+    - left; reflexivity.
+    - left; reflexivity.
+    - destruct Hd as [(_ & _ & ->) | (Hh & Hp & Hd)]; [left; reflexivity|].
+      apply dispatch_shape in Hd.
+      destruct (shape_sends _ _ _ _ _ Hd) as [Hs | (rm & k & Hs & Hform & Hc1 & Hb1 & Hbud1)]; [left; exact Hs|].
+      right. exists m, rm, k.
+      destruct Hsbt as (B1 & B2 & B3 & B4 & B5 & B6 & B7 & B8).
+      rewrite B8 in Hbud1. repeat split; assumption.
+  Qed.
+
+  (* ================================================================ C08 *)
+  (* every datagram sent in reaction to an inbound datagram goes to its source, the datagram was a
+     query, and its transaction id is echoed byte for byte (any length, any bytes) *)
+  Theorem C08_dest_and_t s src size dec ch s' out d rm k :
+    step s (EPacket src size dec) ch = SR s' out -> In (ESend d rm k) out ->
+    d = src /\ exists m, dec = Some m /\ m_y m = s_q /\ m_t rm = m_t m.
+  Proof.
+    intros H Hin. apply in_sends in Hin.
+    destruct (packet_sends _ _ _ _ _ _ _ H) as [Hs | (m & rm' & k' & Hdec & Hy & Hs & Hform & _)].
+    - rewrite Hs in Hin. destruct Hin.
+    - rewrite Hs in Hin. destruct Hin as [E|[]]. injection E as <- <- <-.
+      split; [reflexivity|]. exists m. repeat split; try assumption.
+      destruct Hform; reflexivity.
+  Qed.
+
+  (* ... and it is the only one *)
+  Theorem C08_at_most_one s src size dec ch s' out :
+    step s (EPacket src size dec) ch = SR s' out -> (length (sends out) <= 1)%nat.
+  Proof.
+    intros H. destruct (packet_sends _ _ _ _ _ _ _ H) as [Hs | (m & rm' & k' & _ & _ & Hs & _)];
+      rewrite Hs; cbn; lia.
+  Qed.
+
+  (* nothing is ever sent in reaction to a response, an error, a message of unknown type or an
+     undecodable datagram *)
+  Theorem C08_silent_on_non_query s src size dec ch s' out :
+    step s (EPacket src size dec) ch = SR s' out ->
+    dec = None \/ (exists m, dec = Some m /\ m_y m <> s_q) -> sends out = [].
+  Proof.
+    intros H Hnq. destruct (packet_sends _ _ _ _ _ _ _ H) as [Hs | (m & rm' & k' & Hdec & Hy & _)]; [exact Hs|].
+    destruct Hnq as [E | (m0 & E & Hn)]; [congruence|].
+    rewrite Hdec in E. injection E as <-. contradiction.
+  Qed.
+
+  (* the gates a query has to pass to be answered *)
+  Definition open_gate (s : sstate) (src : addr) (size : N) (m : msg) : Prop :=
+    size <> udp_buf_n /\ port src <> 0%N /\ s_closed s = false /\
+    blocked (s_blocklist s) (ip src) = false /\ s_budget s <> Some 0%N /\
+    c_hook cfg m = true /\ c_passive cfg = false.
+
+  (* ping, find_node, get_peers, get, an unknown method, a method without its arguments, and
+     announce_peer / put whose token is valid: exactly one datagram, to the source, echoing t.
+     (No well-formedness hypothesis is needed: the premise is that the step is an outcome at all.) *)
+  Theorem C08_exactly_one_form s src size m ch s' out :
+    step s (EPacket src size (Some m)) ch = SR s' out ->
+    m_y m = s_q -> open_gate s src size m -> tokens_ok s src m ->
+    exists rm k, sends out = [ESend src rm k] /\ answer_form src (m_t m) rm k.
+  Proof.
+    intros H Hy (G1 & G2 & G3 & G4 & G5 & G6 & G7) Htok.
+    destruct (packet_cases _ _ _ _ _ _ _ H)
+      as [_ _ Hx | m0 Hdec Hny _ _ _ _ _ | m0 s1 r Hdec _ _ _ _ _ Hu Hsbt Hd].
+    - destruct Hx as [Hx|[Hx|[Hx|[Hx|Hx]]]]; congruence.
+    - injection Hdec as <-. contradiction.
+    - injection Hdec as <-.
+      destruct Hd as [([Hx|Hx] & _) | (_ & _ & Hd)]; [congruence|congruence|].
+      apply dispatch_shape in Hd.
+      destruct Hsbt as (B1 & B2 & B3 & B4 & B5 & B6 & B7 & B8).
+      eapply shape_answered; [exact Hd| | | |].
+      + congruence.
+      + rewrite B5. assumption.
+      + rewrite B8. assumption.
+      + unfold tokens_ok. rewrite B1. exact Htok.
+  Qed.
+
+  Theorem C08_exactly_one s src size m ch s' out :
+    step s (EPacket src size (Some m)) ch = SR s' out ->
+    m_y m = s_q -> open_gate s src size m -> tokens_ok s src m ->
+    length (sends out) = 1%nat.
+  Proof.
+    intros H Hy Hg Htok.
+    destruct (C08_exactly_one_form _ _ _ _ _ _ _ H Hy Hg Htok) as (rm & k & Hs & _).
+    rewrite Hs. reflexivity.
+  Qed.
+
+  (* the methods that need no token satisfy [tokens_ok] outright *)
+  Lemma tokens_ok_other s src m :
+    m_q m <> s_announce_peer -> m_q m <> s_put -> tokens_ok s src m.
+  Proof. intros H1 H2 a [E|E]; contradiction. Qed.
+
+  Lemma tokens_ok_no_args s src m : m_a m = None -> tokens_ok s src m.
+  Proof. intros H a _ E. congruence. Qed.
+
+  (* the KRPC form of whatever is sent: a response carries the node's own id and the requester's
+     compact address in `ip`; an error carries an error value; nothing else is ever sent *)
+  Theorem C08_response_form s src size dec ch s' out d rm :
+    step s (EPacket src size dec) ch = SR s' out -> In (ESend d rm SReply) out ->
+    m_y rm = s_r /\ m_q rm = [] /\ m_a rm = None /\ m_e rm = None /\ m_ro rm = false /\
+    m_ip rm = addr_krpc src /\
+    exists r, m_r rm = Some r /\ r_id r = own_id_bytes cfg.
+  Proof.
+    intros H Hin. apply in_sends in Hin.
+    destruct (packet_sends _ _ _ _ _ _ _ H) as [Hs | (m & rm' & k' & Hdec & Hy & Hs & Hform & _)];
+      rewrite Hs in Hin; [destruct Hin|].
+    destruct Hin as [E|[]]. injection E as E1 E2 E3. subst d rm' k'.
+    inversion Hform as [r Hrm Hk|]. cbn. repeat split. eexists. split; reflexivity.
+  Qed.
+
+  Theorem C08_error_form s src size dec ch s' out d rm :
+    step s (EPacket src size dec) ch = SR s' out -> In (ESend d rm SError) out ->
+    m_y rm = s_e /\ m_q rm = [] /\ m_a rm = None /\ m_r rm = None /\ exists e, m_e rm = Some e.
+  Proof.
+    intros H Hin. apply in_sends in Hin.
+    destruct (packet_sends _ _ _ _ _ _ _ H) as [Hs | (m & rm' & k' & Hdec & Hy & Hs & Hform & _)];
+      rewrite Hs in Hin; [destruct Hin|].
+    destruct Hin as [E|[]]. injection E as E1 E2 E3. subst d rm' k'.
+    inversion Hform as [|e Hrm Hk]. cbn. repeat split. eexists. reflexivity.
+  Qed.
+
+  Theorem C08_reply_kinds s src size dec ch s' out d rm k :
+    step s (EPacket src size dec) ch = SR s' out -> In (ESend d rm k) out -> k = SReply \/ k = SError.
+  Proof.
+    intros H Hin. apply in_sends in Hin.
+    destruct (packet_sends _ _ _ _ _ _ _ H) as [Hs | (m & rm' & k' & Hdec & Hy & Hs & Hform & _)];
+      rewrite Hs in Hin; [destruct Hin|].
+    destruct Hin as [E|[]]. injection E as <- <- <-. destruct Hform; auto.
+  Qed.
+
+  (* ---- unknown method -> 204, missing arguments -> 203 ---- *)
+  Lemma neq_bytes_eqb a b : a <> b -> bytes_eqb a b = false.
+  Proof. intros H. destruct (bytes_eqb a b) eqn:E; [|reflexivity]. apply bytes_eqb_eq in E. contradiction. Qed.
+
+  Lemma dispatch_unknown s src m ch :
+    unknown_method m ->
+    dispatch s src m ch = lift Store (send_error s src (m_t m) err_method_unknown).
+  Proof.
+    intros Hu. unfold unknown_method, known_methods in Hu. cbn [In] in Hu.
+    unfold Server.dispatch. cbv zeta.
+    rewrite !neq_bytes_eqb; [reflexivity| | | | | |]; intros E; apply Hu; rewrite E; tauto.
+  Qed.
+
+  Lemma dispatch_missing_args s src m ch :
+    In (m_q m) args_methods -> m_a m = None ->
+    dispatch s src m ch = lift Store (send_error s src (m_t m) err_missing_args).
+  Proof.
+    intros Hin Hma. unfold args_methods in Hin. cbn [In] in Hin.
+    unfold Server.dispatch. cbv zeta. rewrite Hma.
+    destruct Hin as [E|[E|[E|[E|[E|[]]]]]]; rewrite <- E; reflexivity.
+  Qed.
+
+  (* a query whose processing reaches the dispatch and is answered there by one fixed error *)
+  Lemma fixed_error_answer s src size m ch s' out e :
+    step s (EPacket src size (Some m)) ch = SR s' out -> m_y m = s_q ->
+    (forall s1, dispatch s1 src m ch = lift Store (send_error s1 src (m_t m) e)) ->
+    (sends out = [] \/ sends out = [ESend src (error_msg (m_t m) e) SError]) /\
+    (open_gate s src size m -> sends out = [ESend src (error_msg (m_t m) e) SError]).
+  Proof.
+    intros H Hy Hdisp.
+    destruct (packet_cases _ _ _ _ _ _ _ H)
+      as [_ -> Hx | m0 Hdec Hny _ _ _ _ _ | m0 s1 r Hdec _ Hsz Hport Hc Hb Hu Hsbt Hd].
+    - split; [left; reflexivity|]. intros (G1 & G2 & G3 & G4 & _).
+      destruct Hx as [Hx|[Hx|[Hx|[Hx|Hx]]]]; congruence.
+    - injection Hdec as <-. contradiction.
+    - injection Hdec as <-.
+      destruct Hsbt as (B1 & B2 & B3 & B4 & B5 & B6 & B7 & B8).
+      destruct Hd as [(Hx & _ & ->) | (_ & _ & Hd)].
+      { split; [left; reflexivity|]. intros (_ & _ & _ & _ & _ & G6 & G7). destruct Hx; congruence. }
+      rewrite Hdisp in Hd. unfold lift in Hd. injection Hd as H1 H2.
+      assert (Hw : write_rated s1 src (error_msg (m_t m) e) SError = (s', out)).
+      { rewrite <- H1, <- H2. apply surjective_pairing. }
+      apply write_rated_spec in Hw.
+      destruct (wr_sends _ _ _ _ _ _ Hw) as [(Hs & _ & Hwhy) | (Hs & _)].
+      + split; [left; exact Hs|]. intros (_ & _ & G3 & G4 & G5 & _).
+        rewrite B5, B6, B8 in Hwhy. destruct Hwhy as [Hx|[Hx|Hx]]; congruence.
+      + split; [right; exact Hs | intros _; exact Hs].
+  Qed.
+
+  Theorem C08_unknown_204 s src size m ch s' out :
+    step s (EPacket src size (Some m)) ch = SR s' out -> m_y m = s_q -> unknown_method m ->
+    e_code err_method_unknown = err_value_method_unknown /\
+    (sends out = [] \/ sends out = [ESend src (error_msg (m_t m) err_method_unknown) SError]) /\
+    (open_gate s src size m -> sends out = [ESend src (error_msg (m_t m) err_method_unknown) SError]).
+  Proof.
+    intros H Hy Hu. split; [reflexivity|].
+    apply (fixed_error_answer _ _ _ _ _ _ _ _ H Hy). intros s1. apply dispatch_unknown. exact Hu.
+  Qed.
+
+  Theorem C08_missing_args_203 s src size m ch s' out :
+    step s (EPacket src size (Some m)) ch = SR s' out -> m_y m = s_q ->
+    In (m_q m) args_methods -> m_a m = None ->
+    e_code err_missing_args = err_value_missing_arguments /\
+    (sends out = [] \/ sends out = [ESend src (error_msg (m_t m) err_missing_args) SError]) /\
+    (open_gate s src size m -> sends out = [ESend src (error_msg (m_t m) err_missing_args) SError]).
+  Proof.
+    intros H Hy Hin Hma. split; [reflexivity|].
+    apply (fixed_error_answer _ _ _ _ _ _ _ _ H Hy). intros s1. apply dispatch_missing_args; assumption.
+  Qed.
+
+  (* a ping is answered by a response (never an error) *)
+  Theorem C08_ping_reply s src size m ch s' out :
+    step s (EPacket src size (Some m)) ch = SR s' out -> m_y m = s_q -> m_q m = s_ping ->
+    open_gate s src size m ->
+    sends out = [ESend src (reply_msg cfg src (m_t m) empty_return) SReply].
+  Proof.
+    intros H Hy Hq (G1 & G2 & G3 & G4 & G5 & G6 & G7).
+    destruct (packet_cases _ _ _ _ _ _ _ H)
+      as [_ _ Hx | m0 Hdec Hny _ _ _ _ _ | m0 s1 r Hdec _ _ _ _ _ Hu Hsbt Hd].
+    - destruct Hx as [Hx|[Hx|[Hx|[Hx|Hx]]]]; congruence.
+    - injection Hdec as <-. contradiction.
+    - injection Hdec as <-.
+      destruct Hsbt as (B1 & B2 & B3 & B4 & B5 & B6 & B7 & B8).
+      destruct Hd as [([Hx|Hx] & _) | (_ & _ & Hd)]; [congruence|congruence|].
+      unfold Server.dispatch in Hd. cbv zeta in Hd. rewrite Hq in Hd. cbn [bytes_eqb s_ping byte_eqb] in Hd.
+      change (bytes_eqb s_ping s_ping) with true in Hd. cbv iota in Hd.
+      unfold lift, Server.reply in Hd. injection Hd as H1 H2.
+      assert (Hw : write_rated s1 src (reply_msg cfg src (m_t m) empty_return) SReply = (s', out)).
+      { rewrite <- H1, <- H2. apply surjective_pairing. }
+      apply write_rated_spec in Hw.
+      destruct (wr_sends _ _ _ _ _ _ Hw) as [(_ & _ & Hwhy) | (Hs & _)]; [|exact Hs].
+      rewrite B5, B6, B8 in Hwhy. destruct Hwhy as [Hx|[Hx|Hx]]; congruence.
+  Qed.
+
+  (* passive mode or a vetoing query hook: no datagram; for a query not even another effect *)
+  Theorem C08_passive_or_veto_silent s src size dec ch s' out :
+    step s (EPacket src size dec) ch = SR s' out ->
+    c_passive cfg = true \/ (exists m, dec = Some m /\ c_hook cfg m = false) ->
+    sends out = [] /\ (forall m, dec = Some m -> m_y m = s_q -> out = []).
+  Proof.
+    intros H Hpv.
+    destruct (packet_cases _ _ _ _ _ _ _ H)
+      as [_ -> _ | m Hdec0 Hny _ _ _ _ [-> | [qid ->]] | m s1 r Hdec Hy Hsz Hport Hc Hb Hu Hsbt Hd].
+    - split; [reflexivity|auto].
+    - split; [reflexivity|auto].
+    - split; [reflexivity|]. intros m0 E Hy. congruence.
+    - destruct Hd as [(_ & _ & ->) | (Hh & Hp & _)]; [split; [reflexivity|auto]|].
+      destruct Hpv as [Hx | (m0 & E & Hx)]; [congruence|].
+      rewrite Hdec in E. injection E as <-. congruence.
+  Qed.
+
+  (* ---------------------------------------------------------------- the other events *)
+  (* starting an outbound query *)
+  Inductive qstart_case (s : sstate) (qid : N) (dst : addr) (q : bytes) (a : msg_args) (rated : bool)
+            (t : bytes) (s' : sstate) (out : list effect) : Prop :=
+  | QS_failed n :
+      out = [EDropped n; EQueryFailed qid] -> s_budget s' = s_budget s ->
+      (n = 1%N /\ s_closed s = true) \/ (n = 2%N /\ blocked (s_blocklist s) (ip dst) = true) \/
+      (n = 3%N /\ rated = true /\ s_budget s = Some 0%N) ->
+      qstart_case s qid dst q a rated t s' out
+  | QS_sent :
+      out = [ESend dst (query_msg cfg q a t) SQuery] ->
+      s_closed s = false -> blocked (s_blocklist s) (ip dst) = false ->
+      (rated = false /\ s_budget s' = s_budget s) \/
+      (rated = true /\ s_budget s = None /\ s_budget s' = None) \/
+      (rated = true /\ exists b, s_budget s = Some b /\ (0 < b)%N /\ s_budget s' = Some (N.pred b)) ->
+      qstart_case s qid dst q a rated t s' out.
+
+  Lemma qstart_cases s qid dst q a rated t ch s' out :
+    step s (EQueryStart qid dst q a rated t) ch = SR s' out -> qstart_case s qid dst q a rated t s' out.
+  Proof.
+    cbn [Server.step]. cbv zeta. intros H.
+    destruct (s_closed s) eqn:Hc.
+    { injection H as <- <-. eapply QS_failed; [reflexivity|reflexivity|]. left. auto. }
+    destruct (blocked (s_blocklist s) (ip dst)) eqn:Hb.
+    { injection H as <- <-. eapply QS_failed; [reflexivity|reflexivity|]. right. left. auto. }
+    destruct (rated && match s_budget s with Some 0%N => true | _ => false end) eqn:Hz.
+    { injection H as <- <-. eapply QS_failed; [reflexivity|reflexivity|]. right. right.
+      apply andb_true_iff in Hz. destruct Hz as [Hr Hz]. split; [reflexivity|]. split; [exact Hr|].
+      destruct (s_budget s) as [[|p]|]; try discriminate. reflexivity. }
+    destruct (uvarint_decode t) as [n|]; [|discriminate].
+    destruct (N.ltb n (s_next_t s)); [discriminate|].
+    destruct (existsb (txn_match (addr_key dst) t) (s_pending s)); [discriminate|].
+    destruct rated.
+    - cbn [andb] in Hz. cbn [Server.s_budget with_pending] in H.
+      destruct (s_budget s) as [[|p]|] eqn:Hbud; [discriminate| |].
+      + injection H as <- <-. apply QS_sent; try assumption; try reflexivity.
+        right. right. split; [reflexivity|]. exists (N.pos p). split; [exact Hbud|]. split; [lia|]. reflexivity.
+      + injection H as <- <-. apply QS_sent; try assumption; try reflexivity.
+        right. left. split; [reflexivity|]. split; exact Hbud.
+    - injection H as <- <-. apply QS_sent; try assumption; try reflexivity. left. split; reflexivity.
+  Qed.
+
+  (* every remaining event: no datagram, budget untouched *)
+  Lemma quiet_events s e ch s' out :
+    step s e ch = SR s' out ->
+    match e with EPacket _ _ _ | EQueryStart _ _ _ _ _ _ => False | _ => True end ->
+    sends out = [] /\ s_budget s' = s_budget s.
+  Proof.
+    intros H He. destruct e as [src size dec|d|i p id|qid dst q a rated t|qid|a id|bl|]; try contradiction;
+      cbn [Server.step] in H.
+    - injection H as <- <-. split; reflexivity.
+    - destruct (update_node s (mkAddr i p) (Some id) true UNone (ch_victim ch)) as [[s1 r]|] eqn:Hu; [|discriminate].
+      pose proof (update_node_sbt _ _ _ _ _ _ _ _ Hu) as (B1 & B2 & B3 & B4 & B5 & B6 & B7 & B8).
+      destruct r; try discriminate; injection H as <- <-; split; auto.
+    - destruct (existsb (fun x => N.eqb (tx_qid x) qid) (s_pending s)); injection H as <- <-; split; reflexivity.
+    - destruct (update_node s a (Some id) false UFailedPing None) as [[s1 r]|] eqn:Hu; [|discriminate].
+      pose proof (update_node_sbt _ _ _ _ _ _ _ _ Hu) as (B1 & B2 & B3 & B4 & B5 & B6 & B7 & B8).
+      injection H as <- <-; split; auto.
+    - injection H as <- <-. split; reflexivity.
+    - injection H as <- <-. split; reflexivity.
+  Qed.
+
+  (* the destination an event sends queries to, if it is one that starts a query *)
+  Theorem C08_only_queries_elsewhere s e ch s' out d rm k :
+    step s e ch = SR s' out ->
+    match e with EPacket _ _ _ => False | _ => True end ->
+    In (ESend d rm k) out ->
+    exists qid q a rated t, e = EQueryStart qid d q a rated t /\ k = SQuery /\ rm = query_msg cfg q a t /\
+                            out = [ESend d rm k].
+  Proof.
+    intros H He Hin.
+    destruct e as [src size dec|dl|i p id|qid dst q a rated t|qid|a id|bl|]; try contradiction.
+    3: { destruct (qstart_cases _ _ _ _ _ _ _ _ _ _ H) as [n -> _ _ | -> _ _ _].
+         - destruct Hin as [E|[E|[]]]; discriminate.
+         - destruct Hin as [E|[]]. injection E as <- <- <-.
+           exists qid, q, a, rated, t. repeat split. }
+    all: destruct (quiet_events _ _ _ _ _ H I) as [Hs _];
+      exfalso; exact (sends_nil_no_send _ Hs _ _ _ Hin).
+  Qed.
+
+  (* replies and errors only answer datagrams; queries are only sent by query starts *)
+  Theorem C08_kinds s e ch s' out d rm k :
+    step s e ch = SR s' out -> In (ESend d rm k) out ->
+    match e with
+    | EPacket src _ _ => d = src /\ (k = SReply \/ k = SError)
+    | EQueryStart _ dst _ _ _ _ => d = dst /\ k = SQuery
+    | _ => False
+    end.
+  Proof.
+    intros H Hin. destruct e as [src size dec|dl|i p id|qid dst q a rated t|qid|a id|bl|].
+    - split; [exact (proj1 (C08_dest_and_t _ _ _ _ _ _ _ _ _ _ H Hin)) | exact (C08_reply_kinds _ _ _ _ _ _ _ _ _ _ H Hin)].
+    - destruct (C08_only_queries_elsewhere _ _ _ _ _ _ _ _ H I Hin) as (? & ? & ? & ? & ? & E & _); discriminate.
+    - destruct (C08_only_queries_elsewhere _ _ _ _ _ _ _ _ H I Hin) as (? & ? & ? & ? & ? & E & _); discriminate.
+    - destruct (C08_only_queries_elsewhere _ _ _ _ _ _ _ _ H I Hin) as (? & ? & ? & ? & ? & E & Hk & _).
+      injection E as _ <- _ _ _ _. auto.
+    - destruct (C08_only_queries_elsewhere _ _ _ _ _ _ _ _ H I Hin) as (? & ? & ? & ? & ? & E & _); discriminate.
+    - destruct (C08_only_queries_elsewhere _ _ _ _ _ _ _ _ H I Hin) as (? & ? & ? & ? & ? & E & _); discriminate.
+    - destruct (C08_only_queries_elsewhere _ _ _ _ _ _ _ _ H I Hin) as (? & ? & ? & ? & ? & E & _); discriminate.
+    - destruct (C08_only_queries_elsewhere _ _ _ _ _ _ _ _ H I Hin) as (? & ? & ? & ? & ? & E & _); discriminate.
+  Qed.
+
+  (* ================================================================ C19 *)
+  (* no datagram is ever written to a blocked address: every event, every choice, any state,
+     with the blocklist in force when the event is processed *)
+  Theorem C19_no_send_to_blocked s e ch s' out d rm k :
+    step s e ch = SR s' out -> In (ESend d rm k) out -> blocked (s_blocklist s) (ip d) = false.
+  Proof.
+    intros H Hin. destruct e as [src size dec|dl|i p id|qid dst q a rated t|qid|a id|bl|].
+    1: { apply in_sends in Hin.
+         destruct (packet_sends _ _ _ _ _ _ _ H) as [Hs | (m & rm' & k' & _ & _ & Hs & _ & _ & _ & _ & Hb & _)];
+           rewrite Hs in Hin; [destruct Hin|].
+         destruct Hin as [E|[]]. injection E as <- _ _. exact Hb. }
+    3: { destruct (qstart_cases _ _ _ _ _ _ _ _ _ _ H) as [n -> _ _ | -> _ Hb _].
+         - destruct Hin as [E|[E|[]]]; discriminate.
+         - destruct Hin as [E|[]]. injection E as <- _ _. exact Hb. }
+    all: destruct (quiet_events _ _ _ _ _ H I) as [Hs _];
+      exfalso; exact (sends_nil_no_send _ Hs _ _ _ Hin).
+  Qed.
+
+  (* a datagram from a blocked address has no effect at all: the state is unchanged (no table
+     entry, no stored peer or item, no completed or consumed transaction, no token spent) and
+     nothing is output — whatever it contains *)
+  Theorem C19_blocked_inert s src size dec ch s' out :
+    blocked (s_blocklist s) (ip src) = true ->
+    step s (EPacket src size dec) ch = SR s' out -> s' = s /\ out = [].
+  Proof.
+    intros Hb H. destruct (packet_cases _ _ _ _ _ _ _ H)
+      as [-> -> _ | m _ _ Hb' _ _ _ _ | m s1 r _ _ _ _ _ Hb' _ _ _]; [split; reflexivity| |]; congruence.
+  Qed.
+
+  (* blocked sources cannot even produce a choice-dependent outcome: the step is deterministic *)
+  Theorem C19_blocked_inert_total s src size dec ch :
+    blocked (s_blocklist s) (ip src) = true ->
+    step s (EPacket src size dec) ch = SR s [].
+  Proof.
+    intros Hb. cbn [Server.step]. rewrite Hb.
+    destruct (N.eqb size (Z.to_N udp_buf)); [reflexivity|].
+    destruct (N.eqb (port src) 0); [reflexivity|].
+    destruct (s_closed s); reflexivity.
+  Qed.
+
+  (* the node filter every lookup applies before querying an address *)
+  Theorem C19_lookup_filter s i p id :
+    blocked (s_blocklist s) i = true -> traversal_node_filter Store id_secure cfg s i p id = false.
+  Proof.
+    intros Hb. unfold traversal_node_filter. rewrite Hb. cbn [negb]. rewrite andb_false_r. reflexivity.
+  Qed.
+
+  Theorem C04_filter_spec s i p id :
+    traversal_node_filter Store id_secure cfg s i p id = true <->
+    p <> 0%N /\ (forall x r, to4 i = Some (x :: r) -> Byte.to_N x <> 0%N) /\
+    blocked (s_blocklist s) i = false /\
+    (forall x, id = Some x -> c_no_security cfg = true \/ id_secure x i = true).
+  Proof.
+    unfold traversal_node_filter, valid_node_addr. rewrite !andb_true_iff, !negb_true_iff.
+    rewrite N.eqb_neq. split.
+    - intros [[[Hp H0] Hb] Hid]. repeat split; try assumption.
+      + intros x r E. rewrite E in H0. apply N.eqb_neq. exact H0.
+      + intros x E. subst id. apply orb_true_iff. exact Hid.
+    - intros (Hp & H0 & Hb & Hid). repeat split; try assumption.
+      + destruct (to4 i) as [[|x r]|]; try reflexivity. apply N.eqb_neq. eapply H0. reflexivity.
+      + destruct id as [x|]; [|reflexivity]. apply orb_true_iff. apply Hid. reflexivity.
+  Qed.
+
+  (* passive mode: no response or error to any query (for every method, args shape, source) ... *)
+  Theorem C19_passive_silent s src size dec ch s' out :
+    c_passive cfg = true -> step s (EPacket src size dec) ch = SR s' out -> sends out = [].
+  Proof.
+    intros Hp H. exact (proj1 (C08_passive_or_veto_silent _ _ _ _ _ _ _ H (or_introl Hp))).
+  Qed.
+
+  (* ... over all events: whatever a passive node sends is a query ... *)
+  Theorem C19_passive_only_queries s e ch s' out d rm k :
+    c_passive cfg = true -> step s e ch = SR s' out -> In (ESend d rm k) out -> k = SQuery.
+  Proof.
+    intros Hp H Hin. destruct e as [src size dec|dl|i p id|qid dst q a rated t|qid|a id|bl|].
+    1: { exfalso. exact (sends_nil_no_send _ (C19_passive_silent _ _ _ _ _ _ _ Hp H) _ _ _ Hin). }
+    all: destruct (C08_only_queries_elsewhere _ _ _ _ _ _ _ _ H I Hin) as (? & ? & ? & ? & ? & _ & Hk & _);
+      exact Hk.
+  Qed.
+
+  (* ... and every query is marked read-only exactly when the node is passive *)
+  Theorem C19_query_ro s e ch s' out d rm :
+    step s e ch = SR s' out -> In (ESend d rm SQuery) out -> m_ro rm = c_passive cfg.
+  Proof.
+    intros H Hin. destruct e as [src size dec|dl|i p id|qid dst q a rated t|qid|a id|bl|].
+    1: { destruct (C08_reply_kinds _ _ _ _ _ _ _ _ _ _ H Hin); discriminate. }
+    all: destruct (C08_only_queries_elsewhere _ _ _ _ _ _ _ _ H I Hin) as (? & ? & ? & ? & ? & _ & _ & -> & _);
+      reflexivity.
+  Qed.
+
+  Theorem C19_passive_ro s e ch s' out d rm :
+    c_passive cfg = true -> step s e ch = SR s' out -> In (ESend d rm SQuery) out -> m_ro rm = true.
+  Proof. intros Hp H Hin. rewrite (C19_query_ro _ _ _ _ _ _ _ H Hin). exact Hp. Qed.
+
+  (* a closed server writes nothing, on any path *)
+  Theorem C19_closed_silent s e ch s' out :
+    s_closed s = true -> step s e ch = SR s' out -> sends out = [].
+  Proof.
+    intros Hc H. destruct e as [src size dec|dl|i p id|qid dst q a rated t|qid|a id|bl|].
+    1: { destruct (packet_sends _ _ _ _ _ _ _ H) as [Hs | (m & rm' & k' & _ & _ & _ & _ & _ & _ & Hc' & _)];
+           [exact Hs | congruence]. }
+    3: { destruct (qstart_cases _ _ _ _ _ _ _ _ _ _ H) as [n -> _ _ | _ Hc' _ _]; [reflexivity | congruence]. }
+    all: exact (proj1 (quiet_events _ _ _ _ _ H I)).
+  Qed.
+
+  (* ================================================================ C20 (policy) *)
+  (* every rated datagram takes exactly one token; nothing else touches the budget.
+     Replies and errors always count; a query send counts iff the event's [rated] flag. *)
+  Theorem C20_budget_step s e ch s' out b :
+    s_budget s = Some b -> step s e ch = SR s' out ->
+    exists b', s_budget s' = Some b' /\ b = (b' + rated_sends e out)%N.
+  Proof.
+    intros Hbud H. unfold rated_sends.
+    destruct e as [src size dec|dl|i p id|qid dst q a rated t|qid|a id|bl|].
+    1: { rewrite rated_all by reflexivity.
+         destruct (packet_cases _ _ _ _ _ _ _ H)
+           as [-> -> _ | m _ _ _ Hb' _ _ [-> | [qid ->]] | m s1 r Hdec Hy Hsz Hport Hc Hb Hu Hsbt Hd].
+         - exists b. split; [exact Hbud | cbn; lia].
+         - exists b. split; [congruence | cbn; lia].
+         - exists b. split; [congruence | cbn; lia].
+         - destruct Hsbt as (B1 & B2 & B3 & B4 & B5 & B6 & B7 & B8).
+           destruct Hd as [(_ & -> & ->) | (_ & _ & Hd)].
+           + exists b. split; [congruence | cbn; lia].
+           + apply dispatch_shape in Hd. pose proof (shape_budget _ _ _ _ _ Hd) as Hsb.
+             rewrite B8, Hbud in Hsb. exact Hsb. }
+    3: { destruct (qstart_cases _ _ _ _ _ _ _ _ _ _ H) as [n -> Hb' _ | -> _ _ Hcase].
+         - exists b. split; [congruence | cbn; lia].
+         - destruct Hcase as [(-> & Hb') | [(-> & Hn & _) | (-> & b0 & Hb0 & Hpos & Hb')]].
+           + exists b. split; [congruence | cbn; lia].
+           + congruence.
+           + rewrite Hbud in Hb0. injection Hb0 as <-. exists (N.pred b). split; [exact Hb' | cbn; lia]. }
+    all: rewrite rated_all by reflexivity; destruct (quiet_events _ _ _ _ _ H I) as [-> Hb'];
+      exists b; (split; [congruence | cbn; lia]).
+  Qed.
+
+  Theorem C20_unlimited_unchanged s e ch s' out :
+    s_budget s = None -> step s e ch = SR s' out -> s_budget s' = None /\ ~ In (EDropped 3) out.
+  Proof.
+    intros Hbud H.
+    destruct e as [src size dec|dl|i p id|qid dst q a rated t|qid|a id|bl|].
+    1: { destruct (packet_cases _ _ _ _ _ _ _ H)
+           as [-> -> _ | m _ _ _ Hb' _ _ Hout | m s1 r Hdec Hy Hsz Hport Hc Hb Hu Hsbt Hd].
+         - split; [exact Hbud | intros []].
+         - split; [congruence|]. destruct Hout as [-> | [qid ->]]; [intros [] | intros [E|[]]; discriminate].
+         - destruct Hsbt as (B1 & B2 & B3 & B4 & B5 & B6 & B7 & B8).
+           destruct Hd as [(_ & -> & ->) | (_ & _ & Hd)]; [split; [congruence | intros []]|].
+           apply dispatch_shape in Hd. pose proof (shape_budget _ _ _ _ _ Hd) as Hsb.
+           rewrite B8, Hbud in Hsb. split; [exact Hsb|].
+           destruct Hd as [a0 _ _ _ | pre s0 rm kind s2 w Hg Hpre Hform Hw]; [intros []|].
+           intros Hin. apply in_app_or in Hin. destruct Hin as [Hin | Hin].
+           + exact (callbacks_no_drop _ _ Hpre Hin).
+           + destruct Hg as (G1 & G2 & G3 & G4).
+             destruct Hw as [Hc0|Hc0 Hb0|Hc0 Hb0 Hbud0|Hc0 Hb0 Hbud0|b0 Hc0 Hb0 Hbud0 Hpos];
+               try (destruct Hin as [E|[]]; discriminate).
+             congruence. }
+    3: { destruct (qstart_cases _ _ _ _ _ _ _ _ _ _ H) as [n -> Hb' Hwhy | -> _ _ Hcase].
+         - split; [congruence|]. intros [E|[E|[]]]; [|discriminate]. injection E as E. subst n.
+           destruct Hwhy as [(E & _) | [(E & _) | (_ & _ & E)]]; try discriminate. congruence.
+         - split; [|intros [E|[]]; discriminate].
+           destruct Hcase as [(_ & Hb') | [(_ & _ & Hn) | (_ & b0 & Hb0 & _)]]; congruence. }
+    all: destruct (quiet_events _ _ _ _ _ H I) as [Hs Hb']; (split; [congruence|]);
+      intros Hin; cbn [Server.step] in H.
+    - injection H as _ <-. destruct Hin.
+    - destruct (update_node s (mkAddr i p) (Some id) true UNone (ch_victim ch)) as [[s1 r]|]; [|discriminate].
+      destruct r; try discriminate; injection H as _ <-; destruct Hin.
+    - destruct (existsb (fun x => N.eqb (tx_qid x) qid) (s_pending s)); injection H as _ <-;
+        [destruct Hin as [E|[]]; discriminate | destruct Hin].
+    - destruct (update_node s a (Some id) false UFailedPing None) as [[s1 r]|]; [|discriminate].
+      injection H as _ <-; destruct Hin.
+    - injection H as _ <-. destruct Hin.
+    - injection H as _ <-. destruct Hin.
+  Qed.
+
+  (* an exhausted budget: no rated datagram leaves (a reply is dropped, a rated query send fails) *)
+  Theorem C20_no_budget_no_send s e ch s' out :
+    s_budget s = Some 0%N -> step s e ch = SR s' out ->
+    filter (is_rated_send e) out = [] /\ s_budget s' = Some 0%N.
+  Proof.
+    intros Hbud H. destruct (C20_budget_step _ _ _ _ _ _ Hbud H) as (b' & Hb' & Hsum).
+    unfold rated_sends in Hsum.
+    assert (Hlen : length (filter (is_rated_send e) out) = 0%nat) by lia.
+    split; [apply length_zero_iff_nil; exact Hlen|]. rewrite Hb'. f_equal. lia.
+  Qed.
+
+  Theorem C20_no_budget_reply_dropped s src size dec ch s' out :
+    s_budget s = Some 0%N -> step s (EPacket src size dec) ch = SR s' out -> sends out = [].
+  Proof.
+    intros Hbud H. destruct (C20_no_budget_no_send _ _ _ _ _ Hbud H) as [Hf _].
+    rewrite rated_all in Hf by reflexivity. exact Hf.
+  Qed.
+
+  Theorem C20_no_budget_query_fails s qid dst q a t ch s' out :
+    s_budget s = Some 0%N -> step s (EQueryStart qid dst q a true t) ch = SR s' out ->
+    exists n, out = [EDropped n; EQueryFailed qid].
+  Proof.
+    intros Hbud H. destruct (qstart_cases _ _ _ _ _ _ _ _ _ _ H) as [n -> _ _ | -> _ _ Hcase].
+    - exists n. reflexivity.
+    - destruct Hcase as [(E & _) | [(_ & Hn & _) | (_ & b0 & Hb0 & Hpos & _)]]; [discriminate|congruence|].
+      rewrite Hbud in Hb0. injection Hb0 as <-. lia.
+  Qed.
+
+  (* an unrated query send (the caller opted out) is not subject to the budget *)
+  Theorem C20_unrated_query_free s qid dst q a t ch s' out :
+    step s (EQueryStart qid dst q a false t) ch = SR s' out -> s_budget s' = s_budget s.
+  Proof.
+    intros H. destruct (qstart_cases _ _ _ _ _ _ _ _ _ _ H) as [n _ Hb' _ | _ _ _ Hcase]; [exact Hb'|].
+    destruct Hcase as [(_ & Hb') | [(E & _) | (E & _)]]; [exact Hb' | discriminate | discriminate].
+  Qed.
+
+  (* over any history: budget spent = rated datagrams sent; hence never more than the budget *)
+  Theorem C20_run_budget evs : forall s s' outs b,
+    run s evs = Some (s', outs) -> s_budget s = Some b ->
+    exists b', s_budget s' = Some b' /\ b = (b' + total_rated_sends evs outs)%N.
+  Proof.
+    induction evs as [|[e ch] r IH]; intros s s' outs b Hrun Hbud.
+    - cbn in Hrun. injection Hrun as <- <-. exists b. split; [exact Hbud | cbn; lia].
+    - cbn [ServerDefs.run] in Hrun.
+      destruct (step s e ch) as [s1 out| |] eqn:Hstep; try discriminate.
+      destruct (run s1 r) as [[s2 outs']|] eqn:Hr; [|discriminate].
+      injection Hrun as <- <-.
+      destruct (C20_budget_step _ _ _ _ _ _ Hbud Hstep) as (b1 & Hb1 & Hsum1).
+      destruct (IH _ _ _ _ Hr Hb1) as (b2 & Hb2 & Hsum2).
+      exists b2. split; [exact Hb2|]. cbn [total_rated_sends]. lia.
+  Qed.
+
+  Theorem C20_run_bound evs s s' outs b :
+    run s evs = Some (s', outs) -> s_budget s = Some b -> (total_rated_sends evs outs <= b)%N.
+  Proof.
+    intros Hrun Hbud. destruct (C20_run_budget _ _ _ _ _ Hrun Hbud) as (b' & _ & Hsum). lia.
+  Qed.
+
+  Theorem C20_run_unlimited evs : forall s s' outs,
+    run s evs = Some (s', outs) -> s_budget s = None ->
+    s_budget s' = None /\ forall out, In out outs -> ~ In (EDropped 3) out.
+  Proof.
+    induction evs as [|[e ch] r IH]; intros s s' outs Hrun Hbud.
+    - cbn in Hrun. injection Hrun as <- <-. split; [exact Hbud | intros out []].
+    - cbn [ServerDefs.run] in Hrun.
+      destruct (step s e ch) as [s1 out| |] eqn:Hstep; try discriminate.
+      destruct (run s1 r) as [[s2 outs']|] eqn:Hr; [|discriminate].
+      injection Hrun as <- <-.
+      destruct (C20_unlimited_unchanged _ _ _ _ _ Hbud Hstep) as [Hb1 Hnd].
+      destruct (IH _ _ _ Hr Hb1) as [Hb2 Hall].
+      split; [exact Hb2|]. intros o [<- | Hin]; [exact Hnd | exact (Hall _ Hin)].
+  Qed.
+
+  (* ---------------------------------------------------------------- histories *)
+  (* the per-step statements hold at every point of every history: a generic lifting *)
+  Theorem run_all_steps (P : sstate -> event -> choice -> sstate -> list effect -> Prop) :
+    (forall s e ch s' out, step s e ch = SR s' out -> P s e ch s' out) ->
+    forall evs s s' outs, run s evs = Some (s', outs) ->
+    exists states, length states = length evs /\ length outs = length evs /\
+      forall i e ch, nth_error evs i = Some (e, ch) ->
+        exists si si' out, nth_error (s :: states) i = Some si /\ nth_error states i = Some si' /\
+                           nth_error outs i = Some out /\ step si e ch = SR si' out /\ P si e ch si' out.
+  Proof.
+    intros HP. induction evs as [|[e ch] r IH]; intros s s' outs Hrun.
+    - cbn in Hrun. injection Hrun as <- <-. exists []. repeat split. intros [|i] e ch E; discriminate.
+    - cbn [ServerDefs.run] in Hrun.
+      destruct (step s e ch) as [s1 out| |] eqn:Hstep; try discriminate.
+      destruct (run s1 r) as [[s2 outs']|] eqn:Hr; [|discriminate].
+      injection Hrun as <- <-.
+      destruct (IH _ _ _ Hr) as (states & Hl1 & Hl2 & Hall).
+      exists (s1 :: states). cbn [length]. repeat split; try congruence.
+      intros [|i] e0 ch0 E.
+      + cbn in E. injection E as <- <-. exists s, s1, out. repeat split; auto.
+      + cbn [nth_error] in E |- *. exact (Hall i e0 ch0 E).
+  Qed.
+End C08.
